@@ -44,11 +44,16 @@ class Run:
         self.impl_exe = None
         try:
             d = self.p.DRIVER
-            self.impl_exe = vlib.build_driver(self.pid.lower() + "_driver", d["srcs"], sdk=d.get("sdk", False),
+            if hasattr(self.p, "build_driver"):      # shim drivers build scratch copies first (tools/shimcopy.py)
+                self.impl_exe = self.p.build_driver()
+            else:
+              self.impl_exe = vlib.build_driver(self.pid.lower() + "_driver", d["srcs"], sdk=d.get("sdk", False),
                                               variant=d.get("variant", "san"), extra_flags=d.get("flags", ()),
                                               libs=d.get("libs", ("-lpthread",)))
         except TieBroken as e:
             self.tie_errors.append(str(e))
+        except Exception as e:      # a property's own build step failed in an unforeseen way: still a broken tie
+            self.tie_errors.append("driver build: %r" % e)
 
     # ------------------------------------------------------------------ one batch of cases
     def run_batch(self, cases, label):
@@ -78,6 +83,23 @@ class Run:
                 impl = lines
         res = []
         model = tags = None
+        trace_mode = getattr(self.p, "TRACE_MODE", False)
+        orig_cases = cases
+        if trace_mode:
+            # E-sched acceptance: the implementation's line is "<summary> || <event trace>"; the model is an
+            # acceptor that replays "<case> || <event trace>" and prints the summary it derives (or REJECT ...)
+            traces = []
+            summ = []
+            for i, c in enumerate(cases):
+                l = impl[i] if impl is not None and i < len(impl) else ""
+                a, _, b = l.partition(" || ")
+                summ.append(a.strip())
+                traces.append(b.strip())
+            cases = [c + " || " + t for c, t in zip(cases, traces)]
+            if impl is not None:
+                impl = summ[:len(impl)]
+            cf = os.path.join(self.work, label + ".tcases")
+            _write(cf, cases)
         if self.model_exe:
             rc, out = sh([self.model_exe, "model", cf], timeout=1800)
             ml = out.split("\n")
@@ -114,8 +136,8 @@ class Run:
                 sl.pop()
             if rc == 0 and len(sl) == len(cases):
                 mspec = sl
-        for i, c in enumerate(cases):
-            res.append({"case": c,
+        for i, c in enumerate(orig_cases):
+            res.append({"case": c, "tcase": cases[i],
                         "impl": impl[i] if impl is not None and i < len(impl) else None,
                         "model": model[i] if model is not None else None,
                         "tag": tags[i] if tags is not None else None,
